@@ -447,26 +447,41 @@ MUTATIONS = ["drop", "dup", "swap", "rename-known", "rename-unknown", "content",
              "plant-unknown", "plant-misplaced", "plant-metadata", "clear-kids"]
 
 
+_NEEDS = {
+    "drop": lambda n: n.get("k"), "dup": lambda n: n.get("k"), "swap": lambda n: len(n.get("k", [])) >= 2,
+    "attr-drop": lambda n: n.get("a"), "clear-kids": lambda n: n.get("k"),
+    "attr-bad": lambda n: R.node_mappings.get(n["n"]) in R.rules_dict and R.rules_dict[R.node_mappings[n["n"]]][0],
+}
+
+
 @st.composite
 def mutated(draw, base, min_mut=1, max_mut=3, kinds=None):
-    """apply 1..n random mutations to a spec drawn from `base`; returns (spec, [mutation labels])"""
+    """apply 1..n random mutations to a spec drawn from `base`; returns (spec, [mutation labels]).  Which mutation and
+    where come from pre-drawn control integers (see vf/pre.py); a mutation lands on a node it applies to when there is one"""
+    from .pre import Pre
+    pre = Pre(draw, 40)
+    count = pre.int(min_mut, max_mut)
     sp = _copy(draw(base))
     labels = []
-    for _ in range(draw(st.integers(min_mut, max_mut))):
-        allp = list(spec_nodes(sp))
-        path, node = allp[draw(st.integers(0, len(allp) - 1))]
-        m = draw(st.sampled_from(kinds or MUTATIONS))
+    for _ in range(count):
+        m = pre.pick(kinds or MUTATIONS)
+        allp = [x for _, x in spec_nodes(sp)]
+        need = _NEEDS.get(m)
+        able = [x for x in allp if need(x)] if need else allp
+        if not able:
+            continue
+        node = pre.pick(able)
         kids = node.get("k", [])
         if m == "drop" and kids:
-            del kids[draw(st.integers(0, len(kids) - 1))]
+            del kids[pre.int(0, len(kids) - 1)]
         elif m == "dup" and kids:
-            i = draw(st.integers(0, len(kids) - 1))
+            i = pre.int(0, len(kids) - 1)
             kids.insert(i, _copy(kids[i]))
         elif m == "swap" and len(kids) >= 2:
-            i = draw(st.integers(0, len(kids) - 2))
+            i = pre.int(0, len(kids) - 2)
             kids[i], kids[i + 1] = kids[i + 1], kids[i]
         elif m == "rename-known":
-            node["n"] = draw(st.sampled_from(_known_names()))
+            node["n"] = pre.pick(_known_names())
         elif m == "rename-unknown":
             node["n"] = draw(_odd_names)
         elif m == "content":
@@ -480,20 +495,20 @@ def mutated(draw, base, min_mut=1, max_mut=3, kinds=None):
             rn = R.node_mappings.get(node["n"])
             declared = sorted(R.rules_dict[rn][0]) if rn in R.rules_dict else []
             if declared:
-                a[draw(st.sampled_from(declared))] = draw(st.sampled_from(["zzBad", "", "Document"]))
+                a[pre.pick(declared)] = pre.pick(["zzBad", "", "Document"])
         elif m == "attr-foreign":
-            node.setdefault("a", {})[draw(st.sampled_from(["zzForeign", "ID", "xml:lang"]))] = "1"
+            node.setdefault("a", {})[pre.pick(["zzForeign", "ID", "xml:lang"])] = "1"
         elif m == "attr-drop" and node.get("a"):
-            k = draw(st.sampled_from(sorted(node["a"])))
+            k = pre.pick(sorted(node["a"]))
             del node["a"][k]
         elif m == "plant-unknown":
-            new = {"n": draw(st.sampled_from(["bogus", "zzUnknown", "ackknowledgements", "software"]))}
-            if draw(st.booleans()):
-                new["k"] = [{"n": draw(st.sampled_from(_known_names()))}]
-            node.setdefault("k", []).insert(draw(st.integers(0, len(kids))), new)
+            new = {"n": pre.pick(["bogus", "zzUnknown", "ackknowledgements", "software"])}
+            if pre.bool():
+                new["k"] = [{"n": pre.pick(_known_names())}]
+            node.setdefault("k", []).insert(pre.int(0, len(kids)), new)
         elif m == "plant-misplaced":
-            new = {"n": draw(st.sampled_from(_known_names()))}
-            node.setdefault("k", []).insert(draw(st.integers(0, len(kids))), new)
+            new = {"n": pre.pick(_known_names())}
+            node.setdefault("k", []).insert(pre.int(0, len(kids)), new)
         elif m == "plant-metadata":
             inner = draw(st.lists(arb_spec(4), max_size=2))
             md = {"n": "metadata"}
